@@ -404,7 +404,7 @@ def model_lines(cid, case, res, stale=False):
     src = 'clean' if case['src'] == 'clean' else 'exc'
     pfl = ','.join(map(str, case['pf'])) if case['pre'] else ''
     lines = [f'case {cid} n={case["n"]} cap={case["cap"]} rexc={int(case["rexc"])} '
-             f'src={src} pf={pfl} re={",".join(map(str, case["re"]))}']
+             f'src={src} pf={pfl} re={",".join(map(str, case["re"]))} detach=1']
     final = 0
     for e in res['events']:
         if e[0] == 'final':
